@@ -1,11 +1,27 @@
-(* C12 -- shared components: one instance per distinct value, never lost by other edits. Statements only.
+(* C12 -- shared components: one instance per distinct value, never lost by other edits.
    Model: Manager.shared_info with si_add / si_remove / si_merge / si_eqb (SharedComponentsInfo, component_mask.hpp:158-240),
    Manager.pool / insts with new_inst / created_shared (getCreatedSharedComponent, entity_manager.cpp:162-176),
    assign_shared / remove_shared (entity_manager.hpp:886-901, 834-843, entity_manager.cpp:207-233).
-   Proofs: proofs/SharedProofs.v. *)
+   Proofs: proofs/SharedProofs.v (function level); entity level (section 6 of this file): proofs/SharedKey.v,
+   SharedVals.v, SharedFrame.v, SharedInv.v, SharedMain.v -- the unlocked refinement of C02 extended with assignShared /
+   removeShared.  For ALL scripts over create (without shared types) / destroyNow / assign / removeComponent / write
+   through getComponent / assignShared / removeShared (SharedMain.alpha_s), made while the manager is not locked:
+   Refine.refines_on = true (C12_entity_level): every live entity reports exactly the shared values the specification
+   gives it, and its ordinary components and their values are untouched by shared edits and vice versa;
+   equal values of one shared type are ONE instance, different values different instances, for all live entities
+   (C12_one_instance_per_value).
+   How it goes: an archetype is keyed by (component mask, shared info as si_eqb compares it); the pair is packed into
+   one number whose low 128 bits are the component mask (SharedKey.kmk); the structural primitives read a mask only
+   through its low 128 bits and never read the shared info, so they commute with the re-keying (SharedFrame.v) and the
+   invariant and lemmas of C02 are reused on the re-keyed state; on top: every archetype's shared info is well formed,
+   typed by the instance table and pooled, the pool invariant holds, and the specification's shared values of a live
+   entity are the (sorted) values of its archetype's shared info (SharedInv.SInv).
+   Creation with shared types is excluded (open finding creation-time-shared-instance).  The open finding
+   shared-assign-order (the archetype key is the SEQUENCE of instances) does not affect this theorem: refines_on compares
+   what each entity reports, not archetype membership (C12_assign_order_invisible_to_refinement below). *)
 Require Import Coq.Lists.List Coq.NArith.NArith Coq.ZArith.ZArith Coq.Arith.Arith Coq.Bool.Bool.
 From Mustache Require Import Res Manager Palette MgrSpec Refine.
-From Mustache.proofs Require Import SharedProofs.
+From Mustache.proofs Require Import SharedProofs ManagerInv ManagerMain DepsClosure SharedKey SharedVals SharedInv SharedMain.
 Import ListNotations.
 
 (* ---- 1. SharedComponentsInfo stays well-formed ----
@@ -269,3 +285,94 @@ Example C12_step_shares_instance :
   | _ => False
   end.
 Proof. vm_compute. repeat split; reflexivity. Qed.
+
+(* ================================================================================================================ *)
+(* ---- 6. entity level: the unlocked refinement with shared components ---- *)
+
+(* THE statement of Refine.v for this alphabet *)
+Theorem C12_entity_level : forall typed n cis ops s hs,
+  cis_ok cis -> forallb (alpha_s cis) ops = true ->
+  mrun typed n cis ops = Ok (s, hs) -> x_viol (xrun n cis ops) = 0 -> (N.of_nat (length hs) < 16777000)%N ->
+  refines_on typed n cis ops = true.
+Proof. exact shared_refines_on. Qed.
+Print Assumptions C12_entity_level.
+
+Theorem C12_entity_level_pointwise : forall typed n cis ops s hs,
+  cis_ok cis -> forallb (alpha_s cis) ops = true ->
+  mrun typed n cis ops = Ok (s, hs) -> x_viol (xrun n cis ops) = 0 -> (N.of_nat (length hs) < 16777000)%N ->
+  length hs = x_count (xrun n cis ops) /\
+  forall k,
+    match find_ent (xrun n cis ops) k with
+    | Some e => exists e', abs_ent s k (nth k hs null_handle) = Some e' /\ ent_match e e' = true
+    | None => abs_ent s k (nth k hs null_handle) = None
+    end.
+Proof. exact shared_refinement. Qed.
+Print Assumptions C12_entity_level_pointwise.
+
+(* what getSharedComponent observes: the shared info of the archetype a live entity lives in is well formed and stores,
+   for every shared type, an instance holding exactly the value the specification gives the entity (and nothing for the
+   types it gives none); across ALL live entities, two stored instances of one type are equal iff their values are *)
+Theorem C12_one_instance_per_value : forall typed n cis ops s hs,
+  cis_ok cis -> forallb (alpha_s cis) ops = true ->
+  mrun typed n cis ops = Ok (s, hs) -> x_viol (xrun n cis ops) = 0 -> (N.of_nat (length hs) < 16777000)%N ->
+  (forall k e, find_ent (xrun n cis ops) k = Some e ->
+     si_wf (shared_of s (nth k hs null_handle)) /\
+     forall sid v, In (sid, v) (e_shared e) <-> exists i, si_get (shared_of s (nth k hs null_handle)) sid = Some i /\ inst_value s i = v) /\
+  (forall k1 e1 k2 e2 sid i1 i2, find_ent (xrun n cis ops) k1 = Some e1 -> find_ent (xrun n cis ops) k2 = Some e2 ->
+     si_get (shared_of s (nth k1 hs null_handle)) sid = Some i1 -> si_get (shared_of s (nth k2 hs null_handle)) sid = Some i2 ->
+     (inst_value s i1 = inst_value s i2 <-> i1 = i2)).
+Proof. exact shared_instances. Qed.
+Print Assumptions C12_one_instance_per_value.
+
+(* the hypotheses are satisfiable: shared and ordinary edits interleaved over four entities, values shared and replaced,
+   a shared component removed, an entity destroyed (swap-remove in an archetype with shared values), ids reused *)
+Definition cis6 : list cinfo := [pal_info 0 0; pal_info 1 0; pal_info 2 0; pal_info 3 0; dyn_info 8 33; pal_info 6 0].
+Lemma cis6_ok : cis_ok cis6.
+Proof. unfold cis_ok, cis6. repeat constructor; simpl; intros; congruence. Qed.
+
+Definition script_entity : list xop :=
+  [XoCreate 0 3 [] false; XoCreate 0 3 [] true; XoCreate 0 19 [] false; XoSet 0 1 41%Z;
+   XoAssignShared 0 3 5%Z; XoAssignShared 1 3 5%Z; XoAssignShared 2 3 6%Z; XoAssignShared 1 7 1%Z;
+   XoAssign 0 0 2 None; XoAssign 0 1 3 (Some 7%Z); XoSet 1 1 42%Z; XoAssignShared 0 3 6%Z; XoRemoveShared 1 3; XoRemoveShared 1 9;
+   XoRemove 0 0 1 true; XoDestroyNow 0 2; XoCreate 0 3 [] false; XoAssignShared 3 3 5%Z; XoAssignShared 3 7 1%Z; XoRemoveShared 9 3;
+   XoAssignShared 0 3 6%Z; XoRemove 0 3 0 false]%N.
+
+Example C12_entity_level_nonvacuous :
+  cis_ok cis6 /\ forallb (alpha_s cis6) script_entity = true /\ x_viol (xrun 1 cis6 script_entity) = 0 /\
+  (forall typed, exists s hs, mrun typed 1 cis6 script_entity = Ok (s, hs) /\ (N.of_nat (length hs) < 16777000)%N /\
+                              map (is_valid s) hs = [true; true; false; true]) /\
+  map (fun e => (e_k e, map fst (e_comps e), e_shared e)) (x_ents (xrun 1 cis6 script_entity)) =
+    [(1, [0; 1; 3], [(7, 1%Z)]); (0, [0; 2], [(3, 6%Z)]); (3, [1], [(3, 5%Z); (7, 1%Z)])].
+Proof.
+  split; [exact cis6_ok|]. split; [vm_compute; reflexivity|]. split; [vm_compute; reflexivity|]. split.
+  - intros typed. destruct typed; eexists; eexists; (split; [vm_compute; reflexivity|]); split; vm_compute; reflexivity.
+  - vm_compute. reflexivity.
+Qed.
+
+(* the hypotheses of C12_one_instance_per_value inside the quantifiers: entities 1 and 3 hold the value 1 of shared type 7
+   through ONE instance; entities 0 and 3 hold different values of type 3 through different instances *)
+Example C12_one_instance_nonvacuous :
+  match mrun true 1 cis6 script_entity with
+  | Ok (s, hs) =>
+    (exists i, si_get (shared_of s (nth 1 hs null_handle)) 7 = Some i /\ si_get (shared_of s (nth 3 hs null_handle)) 7 = Some i /\ inst_value s i = 1%Z) /\
+    (exists i j, si_get (shared_of s (nth 0 hs null_handle)) 3 = Some i /\ si_get (shared_of s (nth 3 hs null_handle)) 3 = Some j /\ i <> j /\
+                 inst_value s i = 6%Z /\ inst_value s j = 5%Z)
+  | Err _ => False
+  end.
+Proof. vm_compute. split; [eexists; repeat split|eexists; eexists; repeat split; discriminate]. Qed.
+
+(* the open finding shared-assign-order: two entities given the same shared values in a different order live in two
+   archetypes (the key is the sequence of instances); each still reports exactly its values, so the refinement holds *)
+Example C12_assign_order_invisible_to_refinement :
+  let ops := [XoCreate 0 1 [] false; XoCreate 0 1 [] false;
+              XoAssignShared 0 3 5%Z; XoAssignShared 0 7 1%Z; XoAssignShared 1 7 1%Z; XoAssignShared 1 3 5%Z]%N in
+  refines_on true 1 cis6 ops = true /\ forallb (alpha_s cis6) ops = true /\
+  match mrun true 1 cis6 ops with
+  | Ok (s, [h0; h1]) => option_map l_arch (nth_error (locs s) (N.to_nat (fst h0))) <> option_map l_arch (nth_error (locs s) (N.to_nat (fst h1))) /\
+                        (forall sid, si_get (shared_of s h0) sid = si_get (shared_of s h1) sid)
+  | _ => False
+  end.
+Proof.
+  split; [vm_compute; reflexivity|]. split; [vm_compute; reflexivity|]. vm_compute. split; [discriminate|].
+  intros sid. do 8 (destruct sid as [|sid]; [reflexivity|]). reflexivity.
+Qed.
